@@ -41,6 +41,7 @@ use std::io::SeekFrom;
 use std::ops::Deref;
 use std::collections::HashMap;
 use vstd::std_specs::cmp::PartialEqSpec;
+use vstd::std_specs::iter::IteratorSpec;
 use vstd::std_specs::btree::{maps_borrowed_key_to_value, contains_borrowed_key, borrowed_key_ordering_matches};
 
 verus! {
@@ -185,6 +186,26 @@ impl<RS> Xls<RS> {
     pub closed spec fn sheet_range(&self, name: &str) -> Option<Range<Data>> {
         match named(self.sheets@, name) { Some(sd) => Some(sd.range), None => None }
     }
+    /// C17: the stored merged regions ([MS-XLS] 2.4.168 MergeCells records of that sheet's substream, in record order: unit xlswb
+    /// C17.merge_regions_per_sheet) of the sheet called exactly `name`; None: no sheet of that name
+    pub closed spec fn sheet_merge(&self, name: &str) -> Option<Seq<Dimensions>> {
+        match named(self.sheets@, name) { Some(sd) => Some(sd.merge_cells@), None => None }
+    }
+}
+// TRUSTED: A-std -- `Iterator::nth` ("Returns the nth element of the iterator ... nth(0) returns the first value ... None if n is greater
+// than or equal to the length of the iterator"), over vstd's prophetic iterator model.  Not called by the real text (see the `replace?` at
+// Xls::worksheet_merge_cells_at).
+#[verifier::external_body]
+pub fn verif_iter_nth<I: Iterator>(it: I, n: usize) -> (r: Option<I::Item>)
+    ensures
+        it.obeys_prophetic_iter_laws() && n < it.remaining().len() ==> r == Some(it.remaining()[n as int]),
+        it.obeys_prophetic_iter_laws() && it.will_return_none() && n >= it.remaining().len() ==> r is None,
+{ let mut it = it; it.nth(n) }
+/// what a merged-regions accessor hands out, as a value
+pub open spec fn merge_view(r: Option<Vec<Dimensions>>) -> Option<Seq<Dimensions>> { match r { Some(v) => Some(v@), None => None } }
+impl Metadata {
+    /// the sheet descriptors, in WORKBOOK order (xls: BoundSheet8 order, unit xlswb C16.sheets_in_boundsheet_order)
+    pub closed spec fn m_sheets(&self) -> Seq<Sheet> { self.sheets@ }
 }
 impl<RS> Xls<RS> {
     /// `r` lists the stored sheets: as many entries as sheets, each entry = (name of a stored sheet, ITS stored value range)
@@ -1004,6 +1025,35 @@ proof fn lemma_xls_password_only_if_filepass<RS: Read + Seek>(r4: RS, cfb: Cfb, 
         xls_new_run(__p_reader, options, r),
 //@@ body
         broadcast use axiom_question_mark_from;
+//@@ end
+// ---- the merged-region accessors of Xls (C17 "worksheet_merge_cells(name) returns the regions of the named sheet"; C07 "an unknown sheet
+// name is [no answer] rather than some other sheet", "the n-th sheet is the n-th sheet OF THE WORKBOOK": `metadata().sheets[n]`, the order
+// sheet_names() / worksheet_range_at(n) use -- NOT the order of the internal name-keyed map).  Both take `&self`: nothing can change.
+//@@ fn src/xls.rs Xls::worksheet_merge_cells props=C17,C07 entry ret=r
+//@@ sig
+    ensures
+        //# C17.xls_merge_cells_of_exactly_that_sheet
+        self.sheet_merge(name) is Some ==> r is Some && (r->Some_0)@ == self.sheet_merge(name)->Some_0,
+        //# C17,C07.xls_merge_cells_unknown_sheet_is_none
+        self.sheet_merge(name) is None ==> r is None,
+//@@ body
+        proof { axiom_string_keyed_map(self.sheets@, name); }
+//@@ closure 0
+    -> (res: Vec<Dimensions>) ensures
+        //# C17.xls_merge_cells_takes_the_stored_regions
+        res@ == r.merge_cells@
+//@@ end
+//@@ fn src/xls.rs Xls::worksheet_merge_cells_at props=C17,C07 entry ret=r
+//@@ replace? /([\w.]+\(\))\s*\.nth\(([^()]*)\)/ (not in the real text; applies only if an edit picks the sheet with `<iterator>.nth(n)`) Verus: "assume_specification for a provided trait method" unsupported, so `Iterator::nth` cannot be called; `IT.nth(N)` becomes the trusted helper verif_iter_nth(IT, N) (std: "Returns the nth element of the iterator") with both expressions re-inserted verbatim -- the edit is then VERIFIED against the contract instead of being rejected
+verif_iter_nth(\g<1>, \g<2>)
+//@@ sig
+    ensures
+        //# C17,C07.xls_merge_cells_at_beyond_the_last_sheet_is_none
+        n >= self.g_meta().m_sheets().len() ==> r is None,
+        //# C17,C07.xls_merge_cells_at_is_the_nth_sheet_of_the_workbook
+        // (`nm`: the string slice `&sheet.name` derefs to -- vstd: same text; Verus has no text-extensionality for `&str`, hence the binder)
+        n < self.g_meta().m_sheets().len() ==> exists|nm: &str| nm@ == self.g_meta().m_sheets()[n as int].name@
+            && merge_view(r) == #[trigger] self.sheet_merge(nm),
 //@@ end
 //@@ endimpl
 
